@@ -27,6 +27,7 @@ def cases(tier, seed):
     rng3 = random.Random(seed * 104729 + 5)
     for i in range(n // 5):
         kind, R = reg(rng3); ren = rng3.choice([{'a': 'A', 'b': 'Bb', 'c': 'C'}, {'a': 0, 'b': 1, 'c': 2}, {'a': 'A', 'b': 1, 'c': 'c'}])
+        if kind == 'regex': ren = {'a': 'A', 'b': 'Bb', 'c': 'C'}          # the symbols of a Regex are texts: an int symbol would come back from to_regex() as its text, another value (my harness, not the library)
         g = rng3.choice(pool); g2 = C.mk(g[0], [(h, tuple(C.T(ren.get(x[1], x[1])) if not C.is_var(x) else x for x in b)) for h, b in g[1]])
         R2 = F.mk(R[0], {ren.get(x, x) for x in R[1]}, R[2], R[3], {(p_, (ren.get(a_, a_) if a_ is not None else None), q_) for p_, a_, q_ in R[4]})
         yield {'kind': 'cfg', 'G': C.to_json(g2), 'R': F.to_json(R2), 'as': kind}
